@@ -27,7 +27,9 @@ def check(tier, seed):
             ctx = bytes(rng.randrange(256) for _ in range(n))
             for mode in ('pure', 'sha512', 'internal') if n in (255, 256, 257, 512) or tier == 'thorough' else (rng.choice(('pure', 'sha256', 'shake128', 'internal')),):
                 if n > 255:
-                    want_s = lambda o: None if o == 'err:ctx calls=-' else 'signing must return the context error and make no RNG request'
+                    # (the property asks for the error and no signature; that no RNG request is made is a theorem about the current source and
+                    # part of the model correspondence, not of this oracle)
+                    want_s = lambda o: None if o.startswith('err:ctx') else 'signing must return the context error and no signature'
                 else:
                     want_s = lambda o: None if o.startswith('ok ') else 'signing must succeed for contexts up to 255 bytes'
                 cases.append({'line': f"sign {s} {mode} gen:{xi.hex()} {hx(msg)} {hx(ctx)} ok:{'5a' * 32}", 'tag': f'sign len{"<=255" if n <= 255 else ">255"}', 'want': want_s,
@@ -62,7 +64,38 @@ def check(tier, seed):
                         cases.append({'line': f"verify {s} pure bytes:{pk.hex()} {hx(other)} {hx(short)} {sig.hex()}", 'tag': 'aliased split verifies as its own (ctx, message)', 'want': 'true', 'model': True})
                 else:
                     cases.append({'line': f"verify {s} {mode} bytes:{pk.hex()} {hx(msg)} {hx(ctx)} {sig.hex()}", 'tag': 'verify len<=255', 'want': 'true', 'model': n in (0, 255)})
+    # the guard alone, in every mode at every length (a guard that depends on the pre-hash function, or on which entry point, shows here)
+    for s in fam.SETS:
+        for n in sorted(set(lengths(tier) + list(range(250, 300)) + [319, 320, 321, 322, 330, 331, 332, 333, 334, 383, 384])):
+            ctx = bytes((7 * i + n) % 251 for i in range(n))
+            for mode in fam.MODES + ('internal',):
+                if n > 255:
+                    w = lambda o: None if o.startswith('err:ctx') else 'signing must return the context error and no signature'
+                else:
+                    w = lambda o: None if o.startswith('ok ') else 'signing must succeed for contexts up to 255 bytes'
+                cases.append({'line': f"sign {s} {mode} gen:{xi.hex()} {hx(msg)} {hx(ctx)} ok:{'5a' * 32}", 'tag': f'sign guard sweep len{"<=255" if n <= 255 else ">255"}', 'want': w,
+                              'model': n in (255, 256, 287, 288) and s == '44'})
     core.run_and_judge(rep, cases, model_every=0 if tier == 'quick' else 7)
+    # the literal Lean transcription of Algorithms 2-5 (Spec.sign / hashSign / verify / hashVerify: what sign_is_ML_DSA_Sign_as_written and
+    # verify_is_ML_DSA_Verify_as_written are about) executed at the lengths around the limit, against the crate
+    sc = []
+    def smap(o):
+        return 'bottom' if o.startswith('err:ctx') else ('ok ' + o.split()[1] if o.startswith('ok ') else o)
+    for s in fam.SETS:
+        pk, sk = fam.keypair(s, xi)
+        for n in (0, 255, 256, 257, 270, 287, 288, 512, 65536 + 3):
+            ctx = bytes((5 * i + n) % 253 for i in range(n))
+            for mode in fam.MODES:
+                if (n + fam.MODES.index(mode)) % 2 and tier != 'thorough' and n not in (255, 256):
+                    continue
+                sc.append({'rust': f"sign {s} {mode} bytes:{sk.hex()} {hx(msg)} {hx(ctx)} ok:{'00' * 32}", 'spec': f"spec_api_sign {s} {mode} {sk.hex()} {hx(msg)} {hx(ctx)} {'00' * 32}",
+                           'tag': 'sign == Spec.sign / Spec.hashSign executed (literal Lean transcription)', 'map': smap})
+                # the signature the standard's signer makes for the wrapped length byte / for the 255-byte prefix, offered with the long context
+                mp = bytes([0 if mode == 'pure' else 1, n % 256]) + ctx + (msg if mode == 'pure' else R.OIDS[mode] + R.prehash(mode, msg))
+                sg = R.sign_internal(R.PARAMS[s], sk, mp, bytes(32)) if n in (255, 256, 287) else bytes(R.sig_len(R.PARAMS[s]))
+                sc.append({'rust': f"verify {s} {mode} bytes:{pk.hex()} {hx(msg)} {hx(ctx)} {sg.hex()}", 'spec': f"spec_api_verify {s} {mode} {pk.hex()} {hx(msg)} {hx(ctx)} {sg.hex()}",
+                           'tag': 'verify == Spec.verify / Spec.hashVerify executed (literal Lean transcription)', 'map': lambda o: o})
+    core.spec_judge(rep, sc)
     return core.finish(rep, b, 'proof', {
         'rule': 'one case per (set, entry point, mode, context length); non-trivial = reached the guard with a well-formed key and, for verification, '
                 'a signature that is valid for the (possibly wrapped) length byte',
